@@ -288,9 +288,10 @@ class SpecEval:
         if isinstance(obj, Ref):
             p = self.heap[obj.oid]
             if isinstance(p, ListP) and isinstance(idx, int):
-                return p.items[idx]
+                # total semantics: an absent element / key reads as None (the clause about it is then simply false)
+                return p.items[idx] if -len(p.items) <= idx < len(p.items) else None
             if isinstance(p, DictP):
-                return p.items[idx]
+                return p.items.get(idx)
             if isinstance(p, SeriesP):
                 return CandleAt(obj, p.norm(idx))
         raise Unsupported("spec subscript")
